@@ -64,7 +64,7 @@ func initKind(e ast.Expr) string {
 func main() {
 	root := os.Args[1]
 	dirs := []string{".", "variable", "markup", "internal/tree", "internal/rng", "internal/container", "internal/parser"}
-	var vars, writes []string
+	var vars, writes, aliases []string
 	kinds := map[string]string{}
 	for _, d := range dirs {
 		fset := token.NewFileSet()
@@ -100,6 +100,56 @@ func main() {
 						}
 					}
 				}
+			}
+			// a reference-kind global (a map literal) that is handed on as a value — stored in a field, returned, passed to a
+			// function — can be written through the alias where no syntactic write to the global itself is visible: the only
+			// uses that keep it read-only for sure are indexing, ranging, len() and maps.Clone()
+			for fname, f := range pkg.Files {
+				readOnlyUse := map[token.Pos]bool{}
+				declared := map[token.Pos]bool{}
+				ast.Inspect(f, func(n ast.Node) bool {
+					mark := func(e ast.Expr) {
+						if id, ok := e.(*ast.Ident); ok {
+							readOnlyUse[id.Pos()] = true
+						}
+					}
+					switch x := n.(type) {
+					case *ast.IndexExpr:
+						mark(x.X)
+					case *ast.RangeStmt:
+						mark(x.X)
+					case *ast.CallExpr:
+						if id, ok := x.Fun.(*ast.Ident); ok && id.Name == "len" && len(x.Args) == 1 {
+							mark(x.Args[0])
+						}
+						if sel, ok := x.Fun.(*ast.SelectorExpr); ok && sel.Sel.Name == "Clone" && len(x.Args) == 1 {
+							if pk, ok := sel.X.(*ast.Ident); ok && pk.Name == "maps" {
+								mark(x.Args[0])
+							}
+						}
+					case *ast.ValueSpec:
+						for _, nm := range x.Names {
+							declared[nm.Pos()] = true
+						}
+					}
+					return true
+				})
+				ast.Inspect(f, func(n ast.Node) bool {
+					id, ok := n.(*ast.Ident)
+					if !ok || declared[id.Pos()] || readOnlyUse[id.Pos()] {
+						return true
+					}
+					name, isGlobal := "", false
+					if id.Obj != nil {
+						name, isGlobal = globals[id.Obj]
+					} else if names[id.Name] {
+						name, isGlobal = id.Name, true
+					}
+					if isGlobal && kinds[pkg.Name+"."+name] == "map-literal" {
+						aliases = append(aliases, fmt.Sprintf("alias %s.%s in %s", pkg.Name, name, filepath.Base(fname)))
+					}
+					return true
+				})
 			}
 			for fname, f := range pkg.Files {
 				ast.Inspect(f, func(n ast.Node) bool {
@@ -145,6 +195,7 @@ func main() {
 	}
 	sort.Strings(vars)
 	sort.Strings(writes)
+	sort.Strings(aliases)
 	q := func(xs []string) string {
 		parts := make([]string, len(xs))
 		for i, x := range xs {
@@ -165,5 +216,7 @@ func main() {
 	fmt.Println("def packageVarKinds : List (String × String) := [" + strings.Join(pairs, ", ") + "]")
 	fmt.Println("/-- writes to (or address-taking of) a package-level variable outside of its initialiser -/")
 	fmt.Println("def packageWrites : List String := " + q(writes))
+	fmt.Println("/-- uses of a map-literal package-level variable as a value (stored, returned, passed on): it could be written through the alias -/")
+	fmt.Println("def packageAliases : List String := " + q(aliases))
 	fmt.Println("end Ysgo.Generated")
 }
